@@ -70,6 +70,14 @@ func H_c07(p []int) {
 			s = append(s, vByte())
 		}
 	}
+	// what the marker accessors and EscapeMarkers return belongs to the
+	// caller: scribbling over it must not affect later operations
+	for _, m := range [][]byte{redact.StartMarker(), redact.EndMarker(), redact.RedactedMarker(), redact.EscapeMarkers([]byte("k‹"))} {
+		for j := range m {
+			m[j] = '*'
+		}
+	}
+	vAssert(bytesEq(redact.StartMarker(), mS) && bytesEq(redact.EndMarker(), mE) && bytesEq(redact.RedactedMarker(), cat(mS, mX, mE)), "C07/marker-accessors-fresh")
 	s0 := append([]byte{}, s...)
 	rs := redact.RedactableString(s)
 	rb := redact.RedactableBytes(append([]byte{}, s...))
